@@ -45,7 +45,7 @@ PROPS = {
         'level': 'proof',
     },
     'C14': {
-        'modules': ['contracts.c14_expr', 'contracts.c14_literal'],
+        'modules': ['contracts.c14_expr', 'contracts.c14_literal', 'contracts.c04_member'],
         'standins': ['expr_eval'],
         'trusted': PYVC_TRUST + ['ply builds the parse tree its grammar and precedence table define and calls one action per reduction',
                                  'CPython int(text, base) / str(int)'],
@@ -103,7 +103,7 @@ PROPS = {
         'level': 'proof',
     },
     'C04': {
-        'modules': ['contracts.c04_model', 'contracts.c01_encode', 'contracts.c04_runtime', 'contracts.c04_driver'],
+        'modules': ['contracts.c04_model', 'contracts.c01_encode', 'contracts.c04_runtime', 'contracts.c04_driver', 'contracts.c04_member'],
         'standins': ['py_codec'],
         'trusted': PYVC_TRUST,
         'assumptions': ['g++ sizeof of PROPHY_STRUCT equals packed-ABI sum (C08)'],
@@ -156,7 +156,7 @@ PROPS['C03'] = {
     'level': 'other', 'technique': CXX_TECH,
 }
 PROPS['C08'] = {
-    'modules': ['contracts.c04_model', 'contracts.c08_raw', 'contracts.c04_driver'], 'standins': ['cxx_raw'], 'cxx': True,
+    'modules': ['contracts.c04_model', 'contracts.c08_raw', 'contracts.c04_driver', 'contracts.c04_member'], 'standins': ['cxx_raw'], 'cxx': True,
     'trusted': PYVC_TRUST + ['g++ 12 x86-64 layout of packed, aligned structs (what the property is about): measured, not modelled'],
     'assumptions': ['the paddings prophyc computes are the documented ones (C04 contracts, discharged here again); that '
                     'cpp.py turns them into fields and that g++ lays those out as the wire does is checked by the bounded '
